@@ -13,7 +13,8 @@
 //	codec=<1|0>                       the Go tree read from the msgpack bytes equals the one read from the JSON
 //
 // Case lines: "V <value>" (see value.go), "W <k> <i> <schedule seed> <value>*k" (the i-th value of an
-// interleaved history: stable=<1|0> says whether its encodings kept their bytes), "Q <cps>" (string quoting alone).
+// interleaved history: stable=<1|0> says whether its encodings kept their bytes), "E <current value> ~ <initial value> ~ <changes>" (mutate.go: the object after
+// in-place changes, encoded before and after), "Q <cps>" (string quoting alone).
 package main
 
 import (
@@ -850,6 +851,10 @@ func main() {
 		r.historyCase(vs, rng.U64())
 	}
 	out.Extra["histories"] = nh
+	// 7. mutation histories: encode, change a nested container in place, encode again
+	nm := n / 15
+	mutationStream(r, g, rng, nm)
+	out.Extra["mutation_histories"] = nm
 	out.Extra["max_depth"] = 5
 	out.Close(a.Stats)
 }
@@ -874,6 +879,28 @@ func replay(r *runner, path string) {
 			s, _ = parseCps(toks[1])
 		}
 		r.quote(s, "replay")
+		return
+	}
+	if len(toks) >= 2 && toks[0] == "E" {
+		// E <current> ~ <initial> ~ <ops>: rebuild the initial value and redo the changes
+		p := 1
+		if _, err := parseValue(toks, &p); err != nil || p >= len(toks) || toks[p] != "~" {
+			fmt.Fprintln(os.Stderr, "replay: cannot read the mutation history")
+			os.Exit(2)
+		}
+		p++
+		v0, err := parseValue(toks, &p)
+		if err != nil || p >= len(toks) || toks[p] != "~" {
+			fmt.Fprintln(os.Stderr, "replay: cannot read the initial value of the mutation history")
+			os.Exit(2)
+		}
+		p++
+		ops, err := parseOps(toks, &p)
+		if err != nil {
+			fmt.Fprintln(os.Stderr, "replay: cannot read the changes:", err)
+			os.Exit(2)
+		}
+		r.mutation(v0, ops, true, "replay")
 		return
 	}
 	if len(toks) >= 4 && toks[0] == "W" {
